@@ -60,6 +60,19 @@ def _last(nm: Optional[str]) -> str:
     return (nm or "").rsplit(".", 1)[-1]
 
 
+def _cn(fn, c: ast.Call) -> Optional[str]:
+    """call_name(c) with a bound-method alias resolved: after `quote = self.preparer.quote` (the only binding of that
+    local, an attribute chain) the call `quote(x)` is `self.preparer.quote(x)`."""
+    nm = call_name(c)
+    if isinstance(c.func, ast.Name):
+        defs = [v for n_, v, _ in name_stores(fn, into_nested=True) if n_ == c.func.id]
+        if len(defs) == 1 and isinstance(defs[0], ast.Attribute):
+            d = dotted(defs[0])
+            if d and "()" not in d:
+                return d
+    return nm
+
+
 # ---------------------------------------------------------------------- family discovery
 def _traverse_table(ctx, cls) -> List[Tuple[str, str]]:
     ev = Evaluator(ctx.index, symbolic_classes={"InternalTraversal"})
@@ -92,7 +105,7 @@ class _Member:
         """[(self.process(..) call, clause attributes its first argument derives from as a VALUE)]"""
         out = []
         for c in calls_in(self.f.node, into_nested=True):
-            if call_name(c) != "self.process" or not c.args:
+            if _cn(self.f.node, c) != "self.process" or not c.args:
                 continue
             r = {a for a in self.roots.of(c.args[0]) if not a.startswith("key:")}
             r &= {a for a, k in self.attrs.items() if k in EXPR_KINDS}
@@ -461,7 +474,7 @@ def r2(ctx):
         quotes = []
         for st in loop.body:
             for c in calls_in(st, into_nested=False):
-                if _last(call_name(c)) == "quote" and "preparer" in (call_name(c) or "") and c.args:
+                if _last(_cn(f.node, c)) == "quote" and "preparer" in (_cn(f.node, c) or "") and c.args:
                     quotes.append(c)
         # only those whose text reaches the append
         key_names = {nm for nm, v, _ in name_stores(f.node) if v is not None and any(q in quotes for q in ast.walk(v) if isinstance(q, ast.Call))}
